@@ -276,6 +276,11 @@ def run(prop, seed, budget, ctx):
                         want = outcome(lambda: json.loads(json.dumps(fn(fcm[ref], all_refs=all_refs, with_schema=False)).replace(ref, "H")))
                     finally: _sys.setrecursionlimit(lim)
                     if got != want: fail("schema-of-the-converted-class-differs-from-its-source/target", desc={"field_conversion_to": holder, "all_refs": all_refs}, view=view, got=show(got), expected=show(want))
+    import corners8
+    c8f_, c8n_, c8d_, c8h_ = corners8.run_part("C12", seed, budget)
+    failures += c8f_; distinct |= c8d_; evaluations += c8n_
+    for k_, v_ in c8h_.items(): hist[k_] += v_
+    for f in c8f_: hist["P:" + f["why"][0].split(":")[0]] += 1
     import corners7
     cf_, cn_, cd_, ch_ = corners7.run_part("C12", seed, budget)
     failures += cf_; distinct |= cd_; evaluations += cn_
